@@ -6,12 +6,13 @@ from hypothesis import strategies as st
 from ..gen import model as M
 from ..runner import CaseResult
 from .. import netcase as N
+from .. import cudacase as CU
 from ..ctext.extract import BACKENDS, LayoutViolation
 from ..ctext.lexer import CInvalidC
 
 PROPERTY = "C01"
 LEVEL = "exploration"
-TECHNIQUE = 'property-based testing (Hypothesis): generated abstract networks (API, native-file and multi-format-file routes) rendered for four back-ends; exact polynomial oracle (mass-action law computed from the abstract network vs. parsed ydot text)'
+TECHNIQUE = 'property-based testing (Hypothesis): generated abstract networks (API, native-file and multi-format-file routes) rendered for four back-ends; exact polynomial oracle (mass-action law computed from the abstract network vs. parsed ydot text); a fraction of the cases executes the cuSPARSE kernels on a batch of cells (host emulation of the CUDA launch) against the dense back-end per cell'
 RULE = (
     "Hypothesis-generated abstract networks (0-12 reactions over 2-10 species; 1-3 reactants with repetition, "
     "0-5 products, catalysts, pseudo-reactants, duplicates, required-unreacting species, ice/grain/electron species, "
@@ -24,7 +25,7 @@ RULE = (
 ASSUMPTIONS = [
     "species slots are located through the rendered IDX_<alias> macro (alias naming is C09's subject)",
     "heating processes are injected by patching naunet.network.get_allowed_heating/cooling (upstream ships none)",
-    "cuSPARSE back-end observed as kernel text only",
+    "cuSPARSE back-end: kernel text for every case; for a fraction of the cases the rendered .cu files are compiled as C++ against a host emulation of the CUDA launch (vtlib/cxx/shim/vt_cuda.h, launch syntax rewritten mechanically) and run on 2-4 cells",
     "vtlib.ctext (my C-subset reader) is trusted; cross-checked against compiled code in the thorough tier of C03",
 ]
 
@@ -41,6 +42,10 @@ def _case(draw, big=False):
     case["route"] = draw(st.sampled_from(["api", "api", "file", "multi"]))
     if case["route"] == "multi":
         case["multi_formats"] = draw(st.lists(st.sampled_from(["kida", "umist", "leeds", "uclchem", "naunet"]), min_size=2, max_size=3))
+    # a fraction of the cases also *executes* the cuSPARSE kernels on a batch of cells (host emulation) against the dense
+    # back-end run on each cell alone; thermal networks are preferred (their derived quantities depend on the cell)
+    thermal = bool(case["cooling"] or case["heating"])
+    case["cuda"] = draw(CU.batch()) if draw(st.integers(0, 2 if thermal else 9)) == 0 else None
     return case
 
 
@@ -227,6 +232,7 @@ def compare_rhs(case, proj, failures, tag):
 def check_case(case, tier):
     N.reset_naunet_state()
     failures = []
+    extra = {}
     labels = N.network_features(case) + [f"route-{case.get('route', 'api')}"]
     with N.Scratch() as d, N.ThermalPatch(case):
         try:
@@ -246,8 +252,15 @@ def check_case(case, tier):
                 failures.append(("rhs/layout", f"{method}: {e}"))
             except CInvalidC as e:
                 failures.append(("rhs/invalid-c", f"{method}: {e}"))
+        if case.get("cuda") and projs and not failures:
+            labels.append("cuda-batch-executed")
+            full = N.render(net, d / "cu", backends=[("cvode", "dense", "cpu"), ("cvode", "cusparse", "gpu")], templates="all")
+            f2, info = CU.run_batch(case["cuda"], full["dense"], full["cusparse"])
+            # C01 is about the right-hand side: Jacobian discrepancies of the batch belong to C02/C03
+            failures += [(k, m) for k, m in f2 if "/jac/" not in k]
+            extra = {"cuda_cells_compared": info.get("cuda_cells_compared", 0)}
     nontrivial = any(
         l in labels
         for l in ("repeated-reactant", "three-body", "catalyst", "pseudo-reactant", "duplicate-reaction", "thermal")
     )
-    return CaseResult(failures, nontrivial, labels, sample=N.abridge(case))
+    return CaseResult(failures, nontrivial, labels, sample=N.abridge(case), extra=extra)
